@@ -424,7 +424,7 @@ let run_stream id (lines : string list) =
   let relay = ref (set_outq (init c) (Some [])) in
   let receiver = ref (init c) in
   let sent_p = ref 0 and sent_r = ref 0 in            (* how many of outq have been taken over by the harness channel *)
-  let pend1 = ref [] and inq1 = ref [] and pend2 = ref [] and inq2 = ref [] in
+  let pend1 = ref [] and inq1 = ref [] and pend2 = ref [] and inq2 = ref [] and down_dropped = ref false in
   let regs = ref [||] in
   let push h = regs := Array.append !regs [| h |] in
   let reg w = (!regs).(int_of_string w) in
@@ -451,10 +451,12 @@ let run_stream id (lines : string list) =
       | ["xor"; a; b] -> setres (unopt (bxor c !producer (reg a) (reg b)))
       | ["restrict"; a; v; b] -> setres (unopt (restrict c !producer (reg a) (n_of_string v) (b = "1")))
       | ["pump1"; j] -> let (a, b) = take (int_of_string j) !pend1 in inq1 := !inq1 @ a; pend1 := b
-      | ["pump2"; j] -> let (a, b) = take (int_of_string j) !pend2 in inq2 := !inq2 @ a; pend2 := b
+      | ["pump2"; j] -> if not !down_dropped then (let (a, b) = take (int_of_string j) !pend2 in inq2 := !inq2 @ a; pend2 := b)
+      | ["dropdown"] -> down_dropped := true; pend2 := []
       | ["poll1"; t] ->
         let ((s, rest), f) = recv !relay true !inq1 (n_of_string t) in
         relay := s; inq1 := rest; sync_out relay sent_r pend2;
+        if !down_dropped then pend2 := [];
         emit id (qid ()) ("poll1 " ^ (if f then "1" else "0") ^ " " ^ sn s.size)
       | ["poll2"; t] ->
         let ((s, rest), f) = recv !receiver true !inq2 (n_of_string t) in
